@@ -69,7 +69,7 @@ for i in range(1, 21):
             continue
         shorts = {f.short for f in core.values()}
         now, _called = check.forwarded_options(project, w)
-        hit = any(callee in shorts for callee, _prm in now)
+        hit = any(callee in shorts for callee, _prm in now) or (_level == 0 and any(c in shorts for c in _called))
         if hit:
             fns[w.qualname] = w
     index = {f.qualname: f for f in project.all_functions()}
@@ -113,5 +113,12 @@ for pid in [k for k in out if not k.startswith("#")]:
             must, pol, _present = check.control_profile(f)
             ctl[q] = {"must": sorted(must), "pol": {"%s|%s" % k: v for k, v in sorted(pol.items())}}
 out["#control"] = ctl
+sc = {}
+for pid in [k for k in out if not k.startswith("#")]:
+    for q in out[pid]:
+        f = index.get(q)
+        if f is not None and q not in sc:
+            sc[q] = [len(x) for x in check.shortcut_profile(f)]
+out["#shortcut"] = sc
 out["#state"] = {c.qualname: sorted(check.class_state(c)) for c in project.classes.values()}
 json.dump(out, open(os.path.join(os.path.dirname(os.path.dirname(os.path.abspath(__file__))), "menpolint", "scope.json"), "w"), indent=1, sort_keys=True)
